@@ -57,9 +57,9 @@ def gen_cases(ctx, n):
                                 form=("marrays", "xyds", "xyds.fit", "lists")[k % 4]))
         cases.append(G.gen_case(ctx.rng, family=fam, sx=("edit", "one")[k % 2], noise_free=False,
                                 form=("xyds.fit", "marrays", "arrays", "xyds")[k % 4]))
-    # the same problems in other units (x and y scaled independently by 1e-6 ... 1e6): the optimum,
+    # the same problems in other units (x and y scaled independently by 1e-12 ... 1e12): the optimum,
     # the effective variance (slope at the data point) and the certificate are unit-free
-    ext = [(1e-6, 1.0), (1e-6, 1e6), (1e6, 1e-6), (1e-3, 1e3), (1e6, 1e6)]
+    ext = [(1e-6, 1.0), (1e-12, 1e-12), (1e6, 1e-6), (1e-12, 1e12), (1e12, 1e6)]
     for k, fam in enumerate(fams):
         cases.append(G.gen_case(ctx.rng, family=fam, sx=("point", "common", "zeros")[k % 3],
                                 noise_free=(k == 3), units=ext[k]))
